@@ -444,8 +444,8 @@ func TestVerif_C14_Client(t *testing.T) {
 	const P = "C14"
 	r := vk.Start(t, "c14_client", "exploration", P)
 	defer r.Finish()
-	depth := r.Pick(5, 6)
-	r.Rule(P, fmt.Sprintf("client side: every event history of length %d (oracle after every event: shorter histories are covered as prefixes) over {newStream (<=%d), first GOAWAY(last-stream-id in {0,1,3,5,2^31-1,4}), second GOAWAY(id in {0,1,3,5,2^31-1}: smaller/equal/larger), server completes the k-th stream it may still process (trailers, grpc-status 0), application closes the k-th active stream}, inapplicable events pruned; real http2Client against a scripted raw server, one synctest bubble per history; non-trivial = a GOAWAY arrived while at least one stream was active, or two GOAWAYs were sent", depth, c14MaxCalls))
+	depth := r.Pick(7, 10)
+	r.Rule(P, fmt.Sprintf("client side: every event history of length %d (10 = the longest possible: 4 streams opened and ended, 2 GOAWAYs; oracle after every event: shorter histories are covered as prefixes) over {newStream (<=%d), first GOAWAY(last-stream-id in {0,1,3,5,2^31-1,4}), second GOAWAY(id in {0,1,3,5,2^31-1}: smaller/equal/larger), server completes the k-th stream it may still process (trailers, grpc-status 0), application closes the k-th active stream}, inapplicable events pruned; real http2Client against a scripted raw server, one synctest bubble per history; non-trivial = a GOAWAY arrived while at least one stream was active, or two GOAWAYs were sent", depth, c14MaxCalls))
 	r.Assume(P, "history level only (GOMAXPROCS=1 scheduler order inside a step); the NewStream / handleGoAway race window belongs to an E1 leg")
 	r.Assume(P, "a GOAWAY with an even non-zero last-stream-id is malformed: for it only 'no new stream afterwards' is required (grpc-go treats it as a connection error)")
 	r.Assume(P, "channel-level transparent retry is not driven here: eligibility is read from ClientStream.Unprocessed() / NewStreamError.AllowTransparentRetry")
@@ -491,6 +491,7 @@ func TestVerif_C14_Client(t *testing.T) {
 
 	const prefixDepth = 3
 	var hist, steps int64
+	nsamp := 0
 	capped := false
 	var prefixes [][]int
 	po := &c14Odo{}
@@ -526,7 +527,8 @@ outer:
 			r.Outcome(P, "client: "+res.outcome)
 			if (res.g1 != "none" && res.activeAtGoAway > 0) || res.g2 != "none" {
 				r.Nontrivial(P, "client|"+strings.Join(res.events, ","))
-				if res.failedUnprocessed > 0 && res.survivedThenCompleted > 0 {
+				if sh, _ := r.Shard(); sh < 4 && nsamp < 1 && res.failedUnprocessed > 0 && res.survivedThenCompleted > 0 {
+					nsamp++
 					r.Sample(P, map[string]any{"side": "client", "history": res.events, "client_frames": res.log, "outcome": res.outcome})
 				}
 			}
